@@ -11,6 +11,13 @@ Bounded-exhaustive metamorphic exploration on the real library:
            symmetric positive link attribute "w", typical weight 2.0)
   iter     iso(5) (undirected) and iso(4) (directed): every split of depth 2
            (v then v again / the new twin / any other node) x proportions
+  scale    a fixed list of larger structured graphs (refmodel/measure_table
+           .scale_graph: components of 9/12/15/23 nodes with interleaved
+           labels plus isolated nodes, connected bipartite graphs on 21..34
+           nodes, hub rings on 150/209(/300) nodes, dense directed) with
+           unequal weights; a few split nodes (first, one >= N/2 in a later
+           component, last, isolated, hub), one depth-2 split; Network nsi_*
+           methods and the cross methods with groups of 7/8 and N/2 nodes
   cross    pyunicorn.core.InteractingNetworks: iso(n<=5) x every ordered pair
            of disjoint non-empty node groups x every node x proportion, the
            twin joins the group of its original; every nsi_cross_* /
@@ -40,7 +47,17 @@ LEVEL = "exploration"
 PROPS = (0.3, 0.5)
 TOL = dict(rtol=1e-9, atol=1e-12)
 TOL_EV = dict(rtol=1e-6, atol=1e-8)
+TOL_EV_ITER = dict(rtol=2e-5, atol=2e-5)     # N >= 21: see measure_table
 JITTER = 1e-11
+
+
+def _tol(m, n, w):
+    if m.has("simple_ev"):
+        return TOL_EV if n <= 20 else TOL_EV_ITER
+    if m.has("cancel"):
+        W = float(sum(w)) if w is not None else float(n)
+        return dict(rtol=1e-9, atol=1e-12 * max(1.0, W ** 3))
+    return TOL
 
 
 # ---------------------------------------------------------------------------
@@ -353,12 +370,16 @@ def _split_sequences(n, depth):
 
 def fam_split(case):
     n, directed, mask, widx, depth = case
-    Network, _ = _classes()
-    viol, excluded, stats = [], {}, {}
-    ev = 0
     A = adj(n, directed, mask).tolist()
     w = weights(n, widx)
     W = link_attr(np.array(A), 1).tolist()
+    return _split_engine(n, directed, A, w, W, _split_sequences(n, depth))
+
+
+def _split_engine(n, directed, A, w, W, seqs, skip=()):
+    Network, _ = _classes()
+    viol, excluded, stats = [], {}, {}
+    ev = 0
     conn = is_connected(np.array(A))
     dname = "directed" if directed else "undirected"
     has_attr = any(any(r) for r in A)    # igraph keeps no attribute w/o links
@@ -375,6 +396,9 @@ def fam_split(case):
         if m is None:
             stats["unclassified:" + name] = 1
             continue
+        if name in skip:
+            excluded["too slow at this size: " + name] = 1
+            continue
         if m.kind == "histogram":
             excluded["histogram output (bin counts are not n.s.i.)"] = \
                 excluded.get("histogram output (bin counts are not n.s.i.)",
@@ -386,7 +410,7 @@ def fam_split(case):
         if m.has("simple_ev") and not conn:
             excluded["connected only: " + name] = 1
             continue
-        tol = TOL_EV if m.has("simple_ev") else TOL
+        tol = _tol(m, n, w)
         for pat in m.patterns:
             if not has_attr and mt.LA in pat.values():
                 r = "link attribute cannot exist on an edgeless network"
@@ -422,7 +446,7 @@ def fam_split(case):
                 return True
         return False
 
-    for seq in _split_sequences(n, depth):
+    for seq in seqs:
         cur, curA, curw, curW = base, A, w, W
         origin = list(range(n))
         good = True
@@ -520,17 +544,22 @@ def _dist_matrix(A):
 
 def fam_cross(case):
     n, mask, widx, bip_only = case
+    A = adj(n, False, mask).tolist()
+    w = weights(n, widx)
+    W = link_attr(np.array(A), 1).tolist()
+    pairs = ordered_group_pairs(n, allow_partial=not bip_only)
+    return _cross_engine(n, A, w, W, pairs,
+                         [(v, p) for v in range(n) for p in PROPS])
+
+
+def _cross_engine(n, A, w, W, pairs, splits):
     _, IN = _classes()
     viol, excluded, stats = [], {}, {}
     ev = 0
     directed = False
-    A = adj(n, directed, mask).tolist()
-    w = weights(n, widx)
-    W = link_attr(np.array(A), 1).tolist()
     D = _dist_matrix(A)
     base = _make(IN, A, directed, w, W)
     methods = [(nm, m) for nm, m in _nsi_methods(IN, only_own=True)]
-    pairs = ordered_group_pairs(n, allow_partial=not bip_only)
     plan = []     # (name, kind, pattern, L1, L2, single)
     singles = sorted(set(tuple(p[0]) for p in pairs))
     for name, m in methods:
@@ -565,8 +594,8 @@ def fam_cross(case):
                 return True
         return False
 
-    for v in range(n):
-        for p in PROPS:
+    for (v, p) in splits:
+        if True:
             try:
                 cur = base.splitted_copy(node=v, proportion=p)
             except Exception as e:   # noqa
@@ -654,7 +683,68 @@ def fam_cross(case):
             "trivial": n < 2, "sig": sig}
 
 
-FAMILIES = {"split": fam_split, "iter": fam_split, "cross": fam_cross}
+# ---------------------------------------------------------------------------
+# family: scale  (fixed larger structured inputs, same relations)
+
+SCALE_SKIP_BIG = ("nsi_arenas_betweenness",)     # 3 patterns x N sparse solves
+
+
+def _scale_input(name):
+    n, edges, directed = mt.scale_graph(name)
+    A = mt.scale_adjacency(n, edges, directed)
+    w = mt.scale_weights(n)
+    W = link_attr(np.array(A), 1).tolist()
+    return n, directed, A, w, W
+
+
+def _scale_split_nodes(n, A):
+    """A few nodes: the first, one with index >= 0.5*N that is not in the
+    component of node 0 if there is one (a later 'part'), the highest
+    numbered, an isolated one if any, the best connected one."""
+    U = (np.array(A) + np.array(A).T) > 0
+    seen, st = {0}, [0]
+    while st:
+        x = st.pop()
+        for y in np.nonzero(U[x])[0]:
+            if int(y) not in seen:
+                seen.add(int(y))
+                st.append(int(y))
+    late = [i for i in range(n // 2, n) if i not in seen and U[i].any()]
+    isolated = [i for i in range(n) if not U[i].any()]
+    hub = int(np.argmax(U.sum(axis=0)))
+    out = [0, late[0] if late else (n // 2 + 1), n - 1]
+    if isolated:
+        out.append(isolated[-1])
+    if hub not in out:
+        out.append(hub)
+    return out
+
+
+def fam_scale(case):
+    name, what = case
+    n, directed, A, w, W = _scale_input(name)
+    if what == "cross":
+        ev = list(range(0, n, 2))
+        od = list(range(1, n, 2))
+        pairs = [(ev[:7], od[:8]), (od[:8], ev[:7]),
+                 (list(range(n // 2)), list(range(n // 2, n))),
+                 (list(range(0, n, 3)), list(range(1, n, 3))),
+                 ([n - 1], list(range(0, n - 1)))]
+        nodes = _scale_split_nodes(n, A)[:4]
+        r = _cross_engine(n, A, w, W, pairs,
+                          [(v, 0.3) for v in nodes] + [(n - 1, 0.5)])
+        return r
+    nodes = _scale_split_nodes(n, A)
+    seqs = [[(v, 0.3)] for v in nodes] + [[(nodes[1], 0.5)]]
+    if n < 100:
+        seqs.append([(nodes[1], 0.3), (n, 0.5)])       # split the twin again
+        seqs.append([(n - 1, 0.5), (0, 0.3)])
+    return _split_engine(n, directed, A, w, W, seqs,
+                         skip=SCALE_SKIP_BIG if n >= 100 else ())
+
+
+FAMILIES = {"split": fam_split, "iter": fam_split, "cross": fam_cross,
+            "scale": fam_scale}
 
 
 # ---------------------------------------------------------------------------
@@ -713,6 +803,18 @@ def run(ctx):
                 cases.append((n, m, wi, (not thorough) and n == 5))
     ctx.explore("cross", cases, desc="InteractingNetworks nsi_cross_* / "
                 "nsi_internal_* under node splitting")
+    names = mt.SCALE_MID + (mt.SCALE_MID_THOROUGH if thorough else []) + \
+        mt.SCALE_BIG + (mt.SCALE_BIG_THOROUGH if thorough else [])
+    cases = [(nm, "split") for nm in names]
+    cases += [(nm, "cross") for nm in names
+              if not mt.scale_graph(nm)[2] and 16 <= mt.scale_graph(nm)[0]
+              < 100]
+    ctx.explore("scale", cases, chunk=1, desc="fixed larger structured "
+                "graphs (components of 9/12/15/23 nodes with interleaved "
+                "labels and isolated nodes, connected bipartite N>=21, "
+                "N=150/209/300, dense directed), unequal weights; a few "
+                "split nodes incl. a later component and the last node")
+    ctx.notes["scale_inputs"] = names
     found = [nm for nm, _ in _nsi_methods(Network)] + \
         [nm for nm, _ in _nsi_methods(IN, only_own=True)]
     uncl = [nm for nm, m in _nsi_methods(Network) if m is None] + \
